@@ -127,6 +127,14 @@ def run(W, p):
         W.assume(W.all([W.any([W.le(x, 0) for x in (a, b, c)]), W.any([W.le(3, x) for x in (a, b, c)])]), "the frames still cover the window (only the order is wrong)")
         cfg, log = _world(W, p, [a, b, c], good_rel, tmp2)
         clause = "forcing-order"
+        # two frames with different times inside one model step (frame spacing below dt): the step -> frame table cannot hold
+        # both, the time interpolation would divide by a step difference of zero
+        (tmp2 / "dense").mkdir()
+        sub = W.int("second_frame_offset_sec", 1, DT - 1)
+        cfgd, logd = _world(W, p, None, good_rel, tmp2 / "dense", frame_secs=[-DT, DT, DT + sub, 4 * DT])
+        refusedd, excd, nrecd = _attempt(W, cfgd, logd)
+        W.prove(refusedd, clause, dict(case="two frames inside one model step", exception=excd))
+        W.prove(nrecd == 0, "no-output", dict(case="two frames inside one model step", records=nrecd))
     elif fault == "release-window":
         r0 = W.int("rel0", -6, 10)
         r1 = W.int("rel1", -6, 10)
@@ -144,6 +152,14 @@ def run(W, p):
         refused0, exc0, nrec0 = _attempt(W, cfg0, log0)
         W.prove(refused0, clause, dict(case="only a mult = 0 row inside the window", exception=exc0))
         W.prove(nrec0 == 0, "no-output", dict(case="only a mult = 0 row inside the window", records=nrec0))
+        # the only row lies in the unfinished last step: the run has 3 steps (Nsteps is the floor of duration / dt), the row
+        # at step 3 is before the stop time but at no simulated step -- nothing is released, the run must be refused
+        (tmp2 / "tail").mkdir()
+        extra = W.int("tail_extra_sec", 1, DT - 1)
+        cfgt, logt = _world(W, p, [-1, 1, 5], [3], tmp2 / "tail", stop_extra=extra)
+        refusedt, exct, nrect = _attempt(W, cfgt, logt)
+        W.prove(refusedt, clause, dict(case="the only row lies after the last simulated step (duration no multiple of dt)", exception=exct))
+        W.prove(nrect == 0, "no-output", dict(case="only row after the last simulated step", records=nrect))
     elif fault == "time":
         clause = "time-setup"
         res = []
